@@ -415,6 +415,90 @@ def run(repo: Repo, ctx) -> None:
                                    f'{m.rel()}:{h.lineno}',
                                    sample='handler re-raises on every path')
 
+    _r6(repo, ctx)
+
+
+def _r6(repo: Repo, ctx) -> None:
+    """What the callers hand to the sorter."""
+    from ..absint import Facts, open_nodes
+    ctx.floor('C20.R6', 5)
+    # (a) the entry keeps the caller's containers (identity), defaulting only
+    #     a missing one: callers fill them after construction and rely on
+    #     their iteration order
+    init = repo.func('edb.common.topological.DepGraphEntry.__init__')
+    ctx.saw(init)
+    g = CFG(init.node)
+    for fld in ('deps', 'loop_control', 'weak_deps'):
+        F = Facts({f'{fld} is None': False}, init.node)
+        on = open_nodes(g, F)
+        vals = [norm(leaf) for i in sorted(on)
+                if g.nodes[i].kind == 'stmt' and isinstance(
+                    g.nodes[i].ast, ast.Assign) and norm(
+                    g.nodes[i].ast.targets[0]) == f'self.{fld}'
+                for leaf in F.leaves(g.nodes[i].ast.value)]
+        ok = vals == [fld]
+        ctx.ob('C20.R6', f'DepGraphEntry.__init__:{fld}-kept', ok,
+               f'for a caller-supplied {fld} container the entry stores '
+               f'`{vals}`, not the container itself: an empty (ordered) set '
+               f'passed in and filled later is replaced by a private plain '
+               f'set, so later additions are lost and iteration order '
+               f'becomes hash order', init.loc, sample=vals)
+    # (b) sorting by inheritance uses the transitive relation: the input may
+    #     skip intermediate types
+    sbi = repo.func('edb.schema.delta.sort_by_inheritance')
+    ctx.saw(sbi)
+    ctor = [c for c in ast.walk(sbi.node) if isinstance(c, ast.Call)
+            and (call_name(c) or '').endswith('DepGraphEntry')]
+    if len(ctor) != 1:
+        raise AnalysisError('C20.R6: sort_by_inheritance graph construction '
+                            'not found')
+    d = kwarg(ctor[0], 'deps')
+    dt = norm(d) if d is not None else ''
+    ok = '.get_ancestors(' in dt and '.get_bases(' not in dt
+    ctx.ob('C20.R6', 'sort_by_inheritance:transitive', ok,
+           f'sort_by_inheritance orders by `{dt[:60]}`: with direct bases '
+           f'only, two input objects related through a type that is not in '
+           f'the input are unordered (descendant may come first)', sbi.loc,
+           sample=dt[:60])
+    srt = [c for c in ast.walk(sbi.node) if isinstance(c, ast.Call)
+           and (call_name(c) or '').endswith('topological.sort')]
+    ok = bool(srt) and norm(kwarg(srt[0], 'allow_unresolved') or
+                            ast.Constant(False)) == 'True'
+    ctx.ob('C20.R6', 'sort_by_inheritance:allow_unresolved', ok,
+           'ancestors outside the input must be tolerated', sbi.loc,
+           sample='allow_unresolved=True')
+    # (c) hard dependency sets handed to the sorter are only ever extended
+    ri = repo.func('edb.edgeql.declarative._register_item')
+    ctx.saw(ri)
+    shrink = []
+    for n in ast.walk(ri.node):
+        if isinstance(n, ast.Call) and isinstance(n.func, ast.Attribute) \
+                and n.func.attr in ('discard', 'remove', 'pop', 'clear',
+                                    'difference_update',
+                                    'intersection_update') and norm(
+                    n.func.value) in ('deps', 'node.deps'):
+            shrink.append(norm(n))
+        if isinstance(n, ast.AugAssign) and norm(n.target) in (
+                'deps', 'node.deps') and isinstance(
+                n.op, (ast.Sub, ast.BitAnd)):
+            shrink.append(norm(n))
+        if isinstance(n, ast.Assign) and norm(n.targets[0]) in (
+                'deps', 'node.deps') and isinstance(
+                n.value, ast.BinOp) and isinstance(
+                n.value.op, (ast.Sub, ast.BitAnd)):
+            shrink.append(norm(n))
+    ctx.ob('C20.R6', '_register_item:hard-deps-only-grow', not shrink,
+           f'_register_item removes entries from a hard dependency set '
+           f'({shrink}): an edge the tracer found is withheld from the '
+           f'sorter, so a cycle through it is not reported and the order '
+           f'may violate it', ri.loc, sample='no removal from deps')
+    merges = [n for n in ast.walk(ri.node) if isinstance(n, ast.AugAssign)
+              and norm(n.target) == 'node.deps'
+              and isinstance(n.op, ast.BitOr) and norm(n.value) == 'deps']
+    ctx.ob('C20.R6', '_register_item:deps-reach-node', len(merges) == 1,
+           'the computed dependency set is not merged into the graph node',
+           ri.loc, sample='node.deps |= deps')
+
 
 class _Wrap:
     def __init__(self, body):
